@@ -177,6 +177,17 @@ def run(ctx):
                         ctx.violation("monitor", "margin is not -1", {"case": case})
                 if rec != labels:
                     ctx.violation("monitor", "labels not restored by un-padding", {"case": case})
+                # the same split with the lengths / labels held in other sequence types (a caller computes the lengths
+                # as `np.array([len(s) for s in series]) - W + 1` just as well)
+                for form, szs, labs in (("lengths as an integer ndarray", np.array(sizes, dtype=np.int64), list(labels)),
+                                        ("lengths as a tuple", tuple(sizes), list(labels)),
+                                        ("labels as an ndarray", list(sizes), np.array(labels, dtype=np.int64))):
+                    parts2 = dp.split_joint_labels(labs, szs)
+                    got = [[int(x) for x in q] for q in parts2]
+                    if got != [[int(x) for x in q] for q in parts]:
+                        ctx.violation("monitor", "split_joint_labels with the %s: %d parts of lengths %s, expected %d parts of lengths %s" % (
+                            form, len(got), [len(q) for q in got][:8], len(parts), [len(q) for q in parts][:8]), {"case": dict(case, form=form)})
+                        break
             joint_hashes.append(h)
             ctx.count("joint")
     core.anchored_check(ctx, ANCHORS, cov)
